@@ -523,6 +523,11 @@ pub fn comp_any(levels: bool) -> BoxedStrategy<Comp> {
     .boxed()
 }
 
+/// mostly cheap settings, sometimes the (expensive) default levels: xz 9 alone maps ~700 MB
+pub fn comp_mixed() -> BoxedStrategy<Comp> {
+    prop_oneof![12 => comp_fast(), 1 => comp_any(false)].boxed()
+}
+
 /// cheap compression settings only (keeps MiB-sized cases fast)
 pub fn comp_fast() -> BoxedStrategy<Comp> {
     prop_oneof![
@@ -709,8 +714,8 @@ pub fn config_any(p: CfgParams) -> BoxedStrategy<BuilderConfig> {
         proptest::option::of(1u32..2_000_000_000),
         p.comp,
         vec(file_any(p.sizes, p.file_kinds), 0..=p.max_files),
-        proptest::option::weighted(p.sign_prob, 0u8..4),
-        prop::bool::weighted(p.force_large_prob),
+        if p.sign_prob > 0.0 { proptest::option::weighted(p.sign_prob, 0u8..4).boxed() } else { Just(None).boxed() },
+        if p.force_large_prob > 0.0 { prop::bool::weighted(p.force_large_prob).boxed() } else { Just(false).boxed() },
     )
         .prop_map(
             |(
